@@ -16,6 +16,7 @@ pub mod c12;
 pub mod c13;
 pub mod c14;
 pub mod c15;
+pub mod c20;
 
 pub fn run(ctx: &Ctx) -> i32 {
     match ctx.prop.as_str() {
@@ -34,6 +35,7 @@ pub fn run(ctx: &Ctx) -> i32 {
         "C13" => c13::run(ctx),
         "C14" => c14::run(ctx),
         "C15" => c15::run(ctx),
+        "C20" => c20::run(ctx),
         other => {
             eprintln!("unknown property {}", other);
             2
@@ -58,6 +60,7 @@ pub fn replay(prop: &str, op: &str, case: &Value, acc: &mut Acc) -> bool {
         "C13" => c13::replay(op, case, acc),
         "C14" => c14::replay(op, case, acc),
         "C15" => c15::replay(op, case, acc),
+        "C20" => c20::replay(op, case, acc),
         _ => false,
     }
 }
